@@ -3,10 +3,10 @@
    Only statements, closed by [exact lemma], with Print Assumptions beneath. *)
 From Coq Require Import String List NArith ZArith Bool Lia ZifyN ZifyNat ZifyBool.
 From J5V.lib Require Import Outcome Json JsonPrint Base64 Civil Decimal.
-From J5V.model Require Import CodecTypes CodecEnc CodecEncSpec CodecEncDec CodecFloatInt.
+From J5V.model Require Import CodecTypes CodecEnc CodecEncSpec CodecEncDec CodecFloatInt CodecSharedHolder.
 From J5V.model Require CodecDecScalar CodecDec CodecDecTree.
 From J5V.proofs Require CodecDecTime CodecDecDecimal.
-From J5V.proofs Require Import CodecEncProofs CodecEncDecProofs CodecEncTotal CodecEncDecTie CodecEncLex CodecEncInner CodecEncRep CodecEncRepTie CodecFloatIntProofs CodecFloatNonFinite.
+From J5V.proofs Require Import CodecEncProofs CodecEncDecProofs CodecEncTotal CodecEncDecTie CodecEncLex CodecEncInner CodecEncRep CodecEncRepTie CodecFloatIntProofs CodecFloatNonFinite CodecEncPbAny CodecSharedHolderProofs.
 Import ListNotations.
 Local Open Scope N_scope.
 
@@ -521,3 +521,157 @@ Example C01_bytes_decided_example :
              msg_get 1 m' = msg_get 1 dx_msg /\ msg_get 2 m' = msg_get 2 dx_msg /\ msg_get 3 m' = msg_get 3 dx_msg /\
              msg_get 4 m' = msg_get 4 dx_msg.
 Proof. split; [vm_compute; reflexivity|]. split; [vm_compute; reflexivity|]. eexists. split; [vm_compute; reflexivity|]. repeat split; reflexivity. Qed.
+
+(* google.protobuf.Any, the payload stated on MESSAGES (round 4): equiv_value (FAny true), the relation
+   C01_full_statement_proto_any concludes for a pb Any field, says "the decoded value bytes are what
+   the reverse conversion yields".  With the two conversions being what the Go code runs — forward:
+   resolver, proto.Unmarshal, Codec.encode of the payload message (inner_n); reverse: resolver,
+   Codec.decode of the payload text, proto.Marshal (back_of) — the decoded value bytes unmarshal to a
+   message EQUIVALENT (equiv_root of the payload type: the codec round trip one level down) to the
+   message the original value bytes unmarshal to.  Used of the proto wire format: Unmarshal reads
+   back the Marshal bytes of a message the decoder built.  The payload schema and payload message
+   must themselves be inside the theorem (env_static_b, rep_root_b: decided). *)
+Theorem C01_proto_any_payload_equiv :
+  forall fmt_float parse_float parse_time reg unmarshal marshal,
+    float_text_ok fmt_float -> float_roundtrip fmt_float parse_float -> time_parse_extends parse_time ->
+    (forall tn e root, reg tn = Some (e, root) -> oneofs_flat e) ->
+    (forall tn pb e root m, reg tn = Some (e, root) -> unmarshal tn pb = Some m -> raw_root_gen e compact_json root m) ->
+    forall k ab env0 tn fuel m m',
+      equiv_value (inner_n fmt_float reg unmarshal (S k)) print
+                  (Some (back_of parse_float parse_time reg marshal ab)) env0 (FAny true) (VMsg m) (VMsg m') ->
+      sfield 1 m = any_prefix ++ tn ->
+      (forall e root txt x, reg tn = Some (e, root) ->
+         decode_text (dec_scalar parse_float parse_time) ab e root txt = Ok x -> unmarshal tn (marshal tn x) = Some x) ->
+      (forall e root, reg tn = Some (e, root) -> env_static_b e = true) ->
+      (forall e root pm, reg tn = Some (e, root) -> unmarshal tn (sfield 2 m) = Some pm ->
+         rep_root_b (inner_n fmt_float reg unmarshal k) print ab e fuel root pm = true) ->
+      (forall J, strict_parse (match inner_n fmt_float reg unmarshal (S k) tn (sfield 2 m) with Ok t => t | _ => [] end) = Some J ->
+         N.of_nat (jnest J) <= max_nesting) ->
+      exists e root pm pm',
+        reg tn = Some (e, root) /\
+        unmarshal tn (sfield 2 m) = Some pm /\
+        unmarshal tn (sfield 2 m') = Some pm' /\
+        sfield 1 m' = sfield 1 m /\
+        equiv_root (inner_n fmt_float reg unmarshal k) print ab e root pm pm'.
+Proof. exact pbany_payload_equiv. Qed.
+Print Assumptions C01_proto_any_payload_equiv.
+
+(* non-vacuity: payload type T = an object with one bool member "a" (field 1); unmarshal/marshal are a
+   retraction on the messages of that type the decoder builds ([] <-> [], [(1,true)] <-> [8;1]).  All
+   hypotheses hold for the value {type URL .../T, bytes 08 01} and its decoded counterpart, and the
+   conclusion names the two payload messages. *)
+Definition pp_env : env := [([84], SObject [mkProp [97] [1] false false [] (FScalar KBool)])].
+Definition pp_reg (tn : bytes) : option (env * bytes) := if bytes_eqb tn [84] then Some (pp_env, [84]) else None.
+Definition pp_unmarshal (tn pb : bytes) : option msg :=
+  match pb with [] => Some [] | [8; 1] => Some [(1, VBool true)] | _ => None end.
+Definition pp_marshal (tn : bytes) (x : msg) : bytes :=
+  match x with [(1, VBool true)] => [8; 1] | _ => [] end.
+Definition pp_m : msg := [(1, VStr (any_prefix ++ [84])); (2, VBytes [8; 1])].
+Example C01_proto_any_payload_example :
+  equiv_value (inner_n inst_fmt pp_reg pp_unmarshal 1) print
+              (Some (back_of inst_parse_float parse_rfc3339 pp_reg pp_marshal None)) [] (FAny true) (VMsg pp_m) (VMsg pp_m) /\
+  pp_reg [84] = Some (pp_env, [84]) /\ env_static_b pp_env = true /\
+  pp_unmarshal [84] (sfield 2 pp_m) = Some [(1, VBool true)] /\
+  rep_root_b (inner_n inst_fmt pp_reg pp_unmarshal 0) print None pp_env 2 [84] [(1, VBool true)] = true /\
+  inner_n inst_fmt pp_reg pp_unmarshal 1 [84] (sfield 2 pp_m) = Ok [123; 34; 97; 34; 58; 116; 114; 117; 101; 125] /\
+  back_of inst_parse_float parse_rfc3339 pp_reg pp_marshal None [84] [123; 34; 97; 34; 58; 116; 114; 117; 101; 125] = Ok [8; 1].
+Proof.
+  split.
+  - apply EV_pbany with (tn := [84]) (Jd := JObj [([97], JBool true)])
+                        (back := back_of inst_parse_float parse_rfc3339 pp_reg pp_marshal None);
+      try reflexivity; vm_compute; reflexivity.
+  - repeat split; vm_compute; reflexivity.
+Qed.
+
+(* The shared-holder oneof shape (round 4): the exposed oneof of a FLATTENED object is hoisted by the
+   reflector to a oneof property whose proto path is the path of the flattened child, a proper prefix
+   of the paths of the child's other hoisted properties — outside props_ok (env_static_b is false).
+   CodecSharedHolder.hoist_env presents such a property as an exposed oneof of the parent (path [],
+   members addressed from the parent).  (1) hoisting is the identity on environments without the
+   shape; (2) the full round-trip statement holds on the hoisted view, its side conditions being the
+   same two deciders evaluated on hoist_env e; (3) it holds on e itself for every message on which the
+   codec on e and on hoist_env e agree (same document, same decoded message).  The agreement is
+   evaluated by CRound on every case of such an environment, against the real codec's document and
+   decoded message (counters named shared_holder_...).  It fails exactly when an existing holder has no
+   populated member of the oneof (the codec writes "x":{} there). *)
+Theorem C01_hoisting_conservative : forall e, env_shared_holder_b e = false -> hoist_env e = e.
+Proof. exact hoist_env_id. Qed.
+Print Assumptions C01_hoisting_conservative.
+
+Theorem C01_shared_holder_hoisted_decided :
+  forall fmt_float parse_float parse_time any_inner any_back e,
+    float_text_ok fmt_float -> float_roundtrip fmt_float parse_float -> time_parse_extends parse_time ->
+    inner_ok any_inner ->
+    env_static_b (hoist_env e) = true ->
+    forall fuel root m,
+      rep_root_b any_inner print any_back (hoist_env e) fuel root m = true ->
+      exists txt J, encode fmt_float any_inner (hoist_env e) root m = Ok txt /\ strict_parse txt = Some J /\
+        (N.of_nat (jnest J) <= max_nesting ->
+         exists m', decode_tree (dec_scalar parse_float parse_time) print false any_back (hoist_env e) root J = Ok m' /\
+                    equiv_root any_inner print any_back (hoist_env e) root m m').
+Proof. exact codec_full_hoisted. Qed.
+Print Assumptions C01_shared_holder_hoisted_decided.
+
+Theorem C01_shared_holder_decided_partial :
+  forall fmt_float parse_float parse_time any_inner any_back e,
+    float_text_ok fmt_float -> float_roundtrip fmt_float parse_float -> time_parse_extends parse_time ->
+    inner_ok any_inner ->
+    env_static_b (hoist_env e) = true ->
+    forall fuel root m,
+      rep_root_b any_inner print any_back (hoist_env e) fuel root m = true ->
+      encode fmt_float any_inner e root m = encode fmt_float any_inner (hoist_env e) root m ->
+      (forall J, strict_parse (match encode fmt_float any_inner e root m with Ok t => t | _ => [] end) = Some J ->
+         decode_tree (dec_scalar parse_float parse_time) print false any_back e root J =
+         decode_tree (dec_scalar parse_float parse_time) print false any_back (hoist_env e) root J) ->
+      exists txt J, encode fmt_float any_inner e root m = Ok txt /\ strict_parse txt = Some J /\
+        (N.of_nat (jnest J) <= max_nesting ->
+         exists m', decode_tree (dec_scalar parse_float parse_time) print false any_back e root J = Ok m' /\
+                    equiv_root any_inner print any_back (hoist_env e) root m m').
+Proof. exact codec_full_shared_holder. Qed.
+Print Assumptions C01_shared_holder_decided_partial.
+
+(* the statement that is NOT proved (what is missing for the shape): both agreement premises of the
+   partial theorem follow from the decidable condition "every existing holder has a populated member"
+   (CodecSharedHolder.holders_have_members_b), for all environments and messages.  CRound checks
+   per case that inside the other two side conditions the agreement holds EXACTLY when that condition does *)
+Definition C01_shared_holder_full_statement : Prop :=
+  forall fmt_float parse_float parse_time any_inner any_back e,
+    float_text_ok fmt_float -> float_roundtrip fmt_float parse_float -> time_parse_extends parse_time ->
+    inner_ok any_inner ->
+    env_static_b (hoist_env e) = true ->
+    forall fuel root m,
+      rep_root_b any_inner print any_back (hoist_env e) fuel root m = true ->
+      holders_have_members_b e root m = true ->
+      exists txt J, encode fmt_float any_inner e root m = Ok txt /\ strict_parse txt = Some J /\
+        (N.of_nat (jnest J) <= max_nesting ->
+         exists m', decode_tree (dec_scalar parse_float parse_time) print false any_back e root J = Ok m' /\
+                    equiv_root any_inner print any_back (hoist_env e) root m m').
+
+(* non-vacuity: root R flattens its field 1 (a message with a string field 1 and a proto oneof {2: bool,
+   3: int32} exposed as "x"); R also has an int32 field 2.  The environment is outside env_static_b,
+   its hoisted view inside; on sh_msg (holder with member k1) every premise of the partial theorem
+   computes; on sh_msg2 (holder without member) the documents differ: "x":{} against nothing. *)
+Definition sh_env : env :=
+  [([82], SObject [mkProp [97] [1; 1] false false [] (FScalar KString);
+                   mkProp [120] [1] false true [] (FOneof [88]);
+                   mkProp [98] [2] false false [] (FScalar KInt32)]);
+   ([88], SOneof [mkProp [107; 49] [2] false true [3] (FScalar KBool);
+                  mkProp [107; 50] [3] false true [2] (FScalar KInt32)])].
+Definition sh_msg : msg := [(1, VMsg [(1, VStr [118]); (2, VBool true)]); (2, VInt 7)].
+Definition sh_msg2 : msg := [(1, VMsg [(1, VStr [118])]); (2, VInt 7)].
+Definition sh_txt : bytes := Eval vm_compute in
+  match encode rt_fmt rt_inner sh_env [82] sh_msg with Ok t => t | _ => [] end.
+Definition sh_tree : jvalue := Eval vm_compute in
+  match strict_parse sh_txt with Some j => j | None => JNull end.
+Example C01_shared_holder_example :
+  env_shared_holder_b sh_env = true /\ env_static_b sh_env = false /\ env_static_b (hoist_env sh_env) = true /\
+  rep_root_b rt_inner print None (hoist_env sh_env) 3 [82] sh_msg = true /\
+  holders_have_members_b sh_env [82] sh_msg = true /\ holders_have_members_b sh_env [82] sh_msg2 = false /\
+  encode rt_fmt rt_inner sh_env [82] sh_msg = Ok sh_txt /\
+  encode rt_fmt rt_inner (hoist_env sh_env) [82] sh_msg = Ok sh_txt /\
+  strict_parse sh_txt = Some sh_tree /\
+  decode_tree (dec_scalar rt_pf rt_pt) print false None sh_env [82] sh_tree = Ok sh_msg /\
+  decode_tree (dec_scalar rt_pf rt_pt) print false None (hoist_env sh_env) [82] sh_tree = Ok sh_msg /\
+  encode rt_fmt rt_inner sh_env [82] sh_msg2 <> encode rt_fmt rt_inner (hoist_env sh_env) [82] sh_msg2 /\
+  sh_txt <> [].
+Proof. repeat split; try (vm_compute; reflexivity); vm_compute; discriminate. Qed.
